@@ -843,8 +843,9 @@ func sfJudge(ds *sfDataset, qs []sfQuery, clean, got []sfAns, damaged map[int]bo
 				}
 			}
 		case "stats":
-			// every group: sum(n) identifies the counted events (n = 2^vid); they must be events of that group, count must agree
-			counted := map[int]bool{}
+			// every group: sum(n) identifies the events whose n was summed (n = 2^vid): they must be events of that group
+			// (on the ingested values); count must not exceed the group.  What is missing from the sum or from the
+			// count is a loss, attributed to the segments of the missing events.
 			sumIdx, cntIdx := -1, -1
 			for i, a := range q.aggs {
 				if a == "sum(n)" {
@@ -854,45 +855,79 @@ func sfJudge(ds *sfDataset, qs []sfQuery, clean, got []sfAns, damaged map[int]bo
 					cntIdx = i
 				}
 			}
-			if g.err == "" {
-				for key, vals := range g.rows {
-					cvals, known := c.rows[key]
-					if !known {
-						j.fail("altered-value-served", fc, fmt.Sprintf("%s reports a group %q that the ingested data does not have", where, sfUnhex(key)))
-						continue
-					}
-					if sumIdx < 0 || sumIdx >= len(vals) {
-						continue
-					}
-					cs, ok1 := new(big.Int).SetString(cvals[sumIdx], 10)
-					gs, ok2 := new(big.Int).SetString(vals[sumIdx], 10)
-					if vals[sumIdx] == "none" || vals[sumIdx] == "0" {
-						gs, ok2 = big.NewInt(0), true
-					}
-					if !ok1 || !ok2 || gs.Sign() < 0 || new(big.Int).AndNot(gs, cs).Sign() != 0 {
-						j.fail("altered-value-served", fc, fmt.Sprintf("%s group %q: sum(n) = %s is not a sum over events of that group (all of them: %s)", where, sfUnhex(key), vals[sumIdx], cvals[sumIdx]))
-						continue
-					}
-					pop := 0
-					for v := 0; v < 50; v++ {
-						if gs.Bit(v) == 1 {
-							counted[v] = true
-							pop++
-						}
-					}
-					if cntIdx >= 0 && cntIdx < len(vals) && vals[cntIdx] != strconv.Itoa(pop) {
-						j.fail("altered-value-served", fc, fmt.Sprintf("%s group %q: count = %s but sum(n) = %s covers %d events", where, sfUnhex(key), vals[cntIdx], vals[sumIdx], pop))
-					}
+			for key, vals := range g.rows {
+				if _, known := c.rows[key]; !known && g.err == "" {
+					j.fail("altered-value-served", fc, fmt.Sprintf("%s reports a group %q that the ingested data does not have", where, sfUnhex(key)))
 				}
+				_ = vals
 			}
 			for key, cvals := range c.rows {
 				if sumIdx < 0 || sumIdx >= len(cvals) {
 					continue
 				}
-				cs, _ := new(big.Int).SetString(cvals[sumIdx], 10)
-				for v := 0; cs != nil && v < 50; v++ {
-					if cs.Bit(v) == 1 && !counted[v] && ds.events[v] != nil {
-						lose(ds.events[v].seg, fmt.Sprintf("event %d in group %q", v, sfUnhex(key)))
+				cs, ok1 := new(big.Int).SetString(cvals[sumIdx], 10)
+				if !ok1 {
+					continue
+				}
+				members := 0
+				for v := 0; v < cs.BitLen(); v++ {
+					members += int(cs.Bit(v))
+				}
+				gs := big.NewInt(0)
+				gcount := 0
+				if vals, present := g.rows[key]; present && g.err == "" {
+					if sv := vals[sumIdx]; sv != "none" {
+						n, ok2 := new(big.Int).SetString(sv, 10)
+						if !ok2 || n.Sign() < 0 {
+							j.fail("altered-value-served", fc, fmt.Sprintf("%s group %q: sum(n) = %s is not a sum of ingested values", where, sfUnhex(key), sv))
+							continue
+						}
+						gs = n
+					}
+					if cntIdx >= 0 && cntIdx < len(vals) {
+						gcount, _ = strconv.Atoi(vals[cntIdx])
+					}
+					if extra := new(big.Int).AndNot(gs, cs); extra.Sign() != 0 {
+						// events that were summed although they are not in this group / do not satisfy the filter
+						var wrong []string
+						genuine := true
+						for v := 0; v < extra.BitLen(); v++ {
+							if extra.Bit(v) == 1 {
+								if ev := ds.events[v]; ev != nil {
+									wrong = append(wrong, fmt.Sprintf("%d (segment %d block %d)", v, ev.seg, ev.blk))
+								} else {
+									genuine = false
+								}
+							}
+						}
+						if genuine {
+							j.fail("wrong-event-returned", fc, fmt.Sprintf("%s group %q: sum(n) = %s counts event(s) %s, which do not satisfy the query / belong to the group on the ingested values (expected sum %s)", where, sfUnhex(key), vals[sumIdx], strings.Join(wrong, ", "), cvals[sumIdx]))
+						} else {
+							j.fail("altered-value-served", fc, fmt.Sprintf("%s group %q: sum(n) = %s is not a sum over ingested events (all of the group: %s)", where, sfUnhex(key), vals[sumIdx], cvals[sumIdx]))
+						}
+						gs = new(big.Int).And(gs, cs)
+					}
+					if gcount > members {
+						j.fail("altered-value-served", fc, fmt.Sprintf("%s group %q: count = %d, the group has %d events", where, sfUnhex(key), gcount, members))
+					}
+				}
+				for v := 0; v < cs.BitLen(); v++ {
+					if cs.Bit(v) == 1 && gs.Bit(v) == 0 && ds.events[v] != nil {
+						lose(ds.events[v].seg, fmt.Sprintf("n of event %d in the sum of group %q", v, sfUnhex(key)))
+					}
+				}
+				if cntIdx >= 0 && gcount < members {
+					// which events are not counted cannot be told: attribute to the damaged segment when the deficit fits into it
+					inDamaged := 0
+					for v := 0; v < cs.BitLen(); v++ {
+						if cs.Bit(v) == 1 && ds.events[v] != nil && damaged[ds.events[v].seg] {
+							inDamaged++
+						}
+					}
+					if members-gcount <= inDamaged {
+						lostDamaged = append(lostDamaged, fmt.Sprintf("%d event(s) in the count of group %q", members-gcount, sfUnhex(key)))
+					} else {
+						lostOther = append(lostOther, fmt.Sprintf("%d event(s) in the count of group %q (the damaged segment has only %d there)", members-gcount, sfUnhex(key), inDamaged))
 					}
 				}
 			}
@@ -1051,6 +1086,19 @@ func execSegfault(line string) Result {
 	for i, q := range qs {
 		got[i] = sfDecode(q, c2.lines[i+1])
 	}
+	if os.Getenv("VERIF_SF_DEBUG") != "" { // manual triage: both answers of every query that differs
+		fmt.Fprintf(os.Stderr, "mutation %s: %s; startup log errors: %v\n", f[len(f)-1], note, sync.LogErrors)
+		for _, l := range strings.Split(c2.stderr, "\n") {
+			if strings.HasPrefix(l, "DBG") { // temporary instrumentation of a scratch checkout
+				fmt.Fprintln(os.Stderr, l)
+			}
+		}
+		for i, q := range qs {
+			if a, b := clean[i].canon(q), got[i].canon(q); a != b || len(got[i].logErrs) > 0 {
+				fmt.Fprintf(os.Stderr, "q%d %s\n  clean: %s\n  got  : %s\n  log  : %v\n", i, q.spl, a, b, got[i].logErrs)
+			}
+		}
+	}
 	sfJudge(ds, qs, clean, got, damaged, sync.LogErrors, m, j)
 	res.Fails = j.fails
 	seenTag := map[string]bool{}
@@ -1096,17 +1144,32 @@ func sfQueries(nseg, nblk, nrec int, lo, hi uint64) []string {
 	all := fmt.Sprintf("%d/%d", lo, hi+999)
 	var q []string
 	q = append(q, "q/0/1000/"+all+"/all/recs")
-	for rep := 0; rep < 3; rep++ { // the engine visits blocks in map order: repeat with literals of their own
-		q = append(q, fmt.Sprintf("q/0/1000/%s/c:s:ne:s%s", all, hexs(fmt.Sprintf("zz%d", rep))))
-		q = append(q, fmt.Sprintf("q/0/1000/%s/c:u:ne:s%s", all, hexs(fmt.Sprintf("zz%d", rep))))
+	// Filters that the range index cannot prune.  `col != <value of block b>` is false exactly for records of block b:
+	// a reader that serves another block's values for block b lets them through.  With `| stats` the engine searches
+	// a whole segment with one set of readers (one reader per column when GOMAXPROCS=1), in map order of the blocks;
+	// sum(n) identifies the events that passed the filter.  Without it blocks are searched in small time-ordered batches.
+	for rep := 0; rep < 2; rep++ {
+		zz := hexs(fmt.Sprintf("zz%d", rep))
+		vid := 1
+		for s := 0; s < nseg; s++ {
+			for b := 0; b < nblk; b++ {
+				sv, uv := hexs(fmt.Sprintf("w%d%d", s, b)), hexs(fmt.Sprintf("u-%d-%d", vid, (vid*7919)%1000))
+				q = append(q, fmt.Sprintf("q/0/1000/%s/c:s:ne:s%s,c:s:ne:s%s,and/stats:count+sum.n:-", all, sv, zz))
+				if rep == 0 {
+					q = append(q, fmt.Sprintf("q/0/1000/%s/c:u:ne:s%s/stats:count+sum.n:-", all, uv))
+					q = append(q, fmt.Sprintf("q/0/1000/%s/c:s:ne:s%s", all, sv))
+				}
+				vid += nrec
+			}
+		}
 	}
 	q = append(q, fmt.Sprintf("q/0/1000/%s/c:s:eq:w%s", all, hexs("w*")))
+	q = append(q, fmt.Sprintf("q/0/1000/%s/c:s:eq:s%s", all, hexs("w01")))
+	q = append(q, fmt.Sprintf("q/0/1000/%s/c:n:ne:i32/stats:count+sum.n:-", all))
 	q = append(q, fmt.Sprintf("q/0/1000/%s/c:n:ge:i0", all))
 	q = append(q, fmt.Sprintf("q/0/1000/%s/c:i:ge:i0", all))
-	for rep := 0; rep < 2; rep++ {
-		q = append(q, fmt.Sprintf("q/0/1000/%s/c:s:ne:s%s,c:s:ne:s%s,and", all, hexs(fmt.Sprintf("ya%d", rep)), hexs(fmt.Sprintf("yb%d", rep))))
-	}
 	q = append(q, "q/0/1000/"+all+"/all/stats:count+sum.n:k")
+	q = append(q, "q/0/1000/"+all+"/all/stats:count+sum.n:s")
 	q = append(q, "q/0/1000/"+all+"/all/tc:100")
 	// time ranges that cut through the first and the last block of one segment (per-record timestamp checks)
 	for s := 0; s < nseg; s++ {
@@ -1114,6 +1177,7 @@ func sfQueries(nseg, nblk, nrec int, lo, hi uint64) []string {
 		b := sfBase + uint64(s)*1000000 + uint64(nblk-1)*100000 + uint64(nrec-1)*1000 - 500
 		q = append(q, fmt.Sprintf("q/0/1000/%d/%d/all", a, b))
 		q = append(q, fmt.Sprintf("q/0/1000/%d/%d/c:s:ne:s%s", a, b, hexs("zz9")))
+		q = append(q, fmt.Sprintf("q/0/1000/%d/%d/all/stats:count+sum.n:k", a, b))
 	}
 	return q
 }
